@@ -73,16 +73,26 @@ let dump_cdata out label v (d : cdata) =
   print_rows out (label ^ ".pre") v "Pre" d.c_pre;
   print_rows out (label ^ ".post") v "Post" d.c_post
 
+(* printing only: regroup the flat character slots as ports (leader, optional follower) *)
+let rec group_slots (cs : slot list) : (int * cdata * cdata option) list =
+  match cs with
+  | [] -> []
+  | c :: (c2 :: r2 as r) ->
+    if c2.sl_fol && int_of_n c2.sl_port = int_of_n c.sl_port then (int_of_n c.sl_port, c.sl_data, Some c2.sl_data) :: group_slots r2
+    else (int_of_n c.sl_port, c.sl_data, None) :: group_slots r
+  | [c] -> [(int_of_n c.sl_port, c.sl_data, None)]
+
 let dump_frames (out : Buffer.t) (v : version) (f : frames) =
   Buffer.add_string out (Printf.sprintf "frames.len=%d\n" (Stdlib.List.length f.f_ids));
   Buffer.add_string out (Printf.sprintf "ids=%s\n" (join "," (Stdlib.List.map (fun x -> string_of_int (int_of_z x)) f.f_ids)));
-  Buffer.add_string out (Printf.sprintf "nports=%d\n" (Stdlib.List.length f.f_ports));
-  Stdlib.List.iteri (fun k (p : pdata) ->
-      Buffer.add_string out (Printf.sprintf "port[%d].port=%d\n" k (int_of_n p.p_port));
-      dump_cdata out (Printf.sprintf "port[%d].leader" k) v p.p_leader;
-      (match p.p_follower with
+  let groups = group_slots f.f_chars in
+  Buffer.add_string out (Printf.sprintf "nports=%d\n" (Stdlib.List.length groups));
+  Stdlib.List.iteri (fun k (port, leader, follower) ->
+      Buffer.add_string out (Printf.sprintf "port[%d].port=%d\n" k port);
+      dump_cdata out (Printf.sprintf "port[%d].leader" k) v leader;
+      (match follower with
        | None -> Buffer.add_string out (Printf.sprintf "port[%d].follower=none\n" k)
-       | Some d -> dump_cdata out (Printf.sprintf "port[%d].follower" k) v d)) f.f_ports;
+       | Some d -> dump_cdata out (Printf.sprintf "port[%d].follower" k) v d)) groups;
   (match f.f_start with
    | None -> Buffer.add_string out "fstart=none\n"
    | Some rows -> print_rows out "fstart" v "Start" rows);
@@ -205,9 +215,10 @@ let replay_of_fields (f : Stdlib.String.t list) : replay =
       match Stdlib.String.split_on_char '/' fs with
       | [id; st; en; chars; items] ->
         let cs = Stdlib.List.map (fun c ->
-            match Stdlib.String.split_on_char '.' c with
-            | [p; fl; pre; post] -> api_mk_char (n_of_int (int_of_string p)) (fl = "1") (bytes_of_hex pre) (bytes_of_hex post)
-            | _ -> failwith "bad char") (split_on ',' chars) in
+            if c = "-" then None else
+              match Stdlib.String.split_on_char '.' c with
+              | [pre; post] -> Some (bytes_of_hex pre, bytes_of_hex post)
+              | _ -> failwith "bad slot") (if chars = "" then [] else Stdlib.String.split_on_char ',' chars) in
         let its = Stdlib.List.map bytes_of_hex (split_on ',' items) in
         api_mk_frame (z_of_int (int_of_string id)) (bytes_of_hex st) cs its (bytes_of_hex en)
       | _ -> failwith "bad frame") (split_on ';' (nth 4)) in
@@ -329,15 +340,20 @@ let js (l : n list) : Stdlib.String.t = join "," (Stdlib.List.map (fun x -> stri
 
 let dump_fview (out : Buffer.t) (i : int) (f : fview) =
   Buffer.add_string out (Printf.sprintf "f[%d].id=%d\n" i (int_of_z f.fv_id));
-  Stdlib.List.iteri (fun k (p : pview) ->
-      Buffer.add_string out (Printf.sprintf "f[%d].port[%d].port=%d\n" i k (int_of_n p.pv_port));
-      Buffer.add_string out (Printf.sprintf "f[%d].port[%d].leader.pre=%s\n" i k (js p.pv_leader.cv_pre));
-      Buffer.add_string out (Printf.sprintf "f[%d].port[%d].leader.post=%s\n" i k (js p.pv_leader.cv_post));
-      (match p.pv_follower with
+  let rec grp (cs : ((n * bool) * cview) list) =
+    match cs with
+    | [] -> []
+    | ((p, _), c) :: ((((p2, true), c2) :: r2)) when int_of_n p2 = int_of_n p -> (int_of_n p, c, Some c2) :: grp r2
+    | ((p, _), c) :: r -> (int_of_n p, c, None) :: grp r in
+  Stdlib.List.iteri (fun k (port, (l : cview), fo) ->
+      Buffer.add_string out (Printf.sprintf "f[%d].port[%d].port=%d\n" i k port);
+      Buffer.add_string out (Printf.sprintf "f[%d].port[%d].leader.pre=%s\n" i k (js l.cv_pre));
+      Buffer.add_string out (Printf.sprintf "f[%d].port[%d].leader.post=%s\n" i k (js l.cv_post));
+      (match fo with
        | None -> Buffer.add_string out (Printf.sprintf "f[%d].port[%d].follower=none\n" i k)
-       | Some d ->
+       | Some (d : cview) ->
          Buffer.add_string out (Printf.sprintf "f[%d].port[%d].follower.pre=%s\n" i k (js d.cv_pre));
-         Buffer.add_string out (Printf.sprintf "f[%d].port[%d].follower.post=%s\n" i k (js d.cv_post)))) f.fv_ports;
+         Buffer.add_string out (Printf.sprintf "f[%d].port[%d].follower.post=%s\n" i k (js d.cv_post)))) (grp f.fv_chars);
   (match f.fv_start with
    | None -> Buffer.add_string out (Printf.sprintf "f[%d].start=none\n" i)
    | Some v -> Buffer.add_string out (Printf.sprintf "f[%d].start=%s\n" i (js v)));
